@@ -3,6 +3,7 @@ import KdVerif.Gen.Enums
 import KdVerif.Proofs.Declared
 import KdVerif.Gen.Decoders
 import KdVerif.Gen.Host
+import KdVerif.Proofs.EndToEnd
 /-
   C14 (column half) — every formatted line is the concatenation, in a fixed order, of the enabled
   columns; switching one column off removes exactly that column and alters no other; colouring
@@ -97,25 +98,25 @@ def colQual (qe : EnumDef) (qual : Nat) : String :=
 
 def colTidHex (tid : Nat) : String := padRight 12 (pyHex tid)
 def colTidDec (tid : Nat) : String := padLeft 11 (toString tid) ++ " "
-def colProcess (w : Nat) (t : Tables) (tid : Nat) : String := padRight w (formatProcess t tid)
+def colProcess (w : Nat) (t : Format.Tables) (tid : Nat) : String := padRight w (formatProcess t tid)
 def colArgs (data : Bytes) : String := padRight 34 (bytesRepr data)
 
 /-- Event line: timestamp, name, qualifier, thread id (hex), process (27), argument bytes. -/
-def keventCols (qe : EnumDef) (codes : List (Nat × String)) (t : Tables) (e : Kevent) : List Col :=
+def keventCols (qe : EnumDef) (codes : List (Nat × String)) (t : Format.Tables) (e : Kevent) : List Col :=
   [(some .timestamp, colTimestamp e.timestamp), (some .name, colName codes e.eventid),
    (some .funcQual, colQual qe e.qual), (some .tid, colTidHex e.tid),
    (some .process, colProcess 27 t e.tid), (some .args, colArgs e.data)]
 
 /-- Header shared by trace and callstack lines: timestamp, thread id (decimal), process (34). -/
-def headerCols (t : Tables) (timestamp tid : Nat) : List Col :=
+def headerCols (t : Format.Tables) (timestamp tid : Nat) : List Col :=
   [(some .timestamp, colTimestamp timestamp), (some .tid, colTidDec tid), (some .process, colProcess 34 t tid)]
 
 /-- Trace line: header, then the body (always printed). -/
-def traceCols (t : Tables) (tr : TraceRec) : List Col := headerCols t tr.timestamp tr.tid ++ [(none, tr.body)]
+def traceCols (t : Format.Tables) (tr : TraceRec) : List Col := headerCols t tr.timestamp tr.tid ++ [(none, tr.body)]
 
 /-- Log line: timestamp text (27), the process between two spaces when the record has a process
     name, the message.  No column is switchable. -/
-def logCols (t : Tables) (timeString : String) (l : LogRec) : List Col :=
+def logCols (t : Format.Tables) (timeString : String) (l : LogRec) : List Col :=
   [(none, padRight 27 timeString)]
     ++ (if l.process ≠ "" then [(none, " " ++ colProcess 27 t l.threadIdentifier ++ " ")] else [])
     ++ [(none, l.message)]
@@ -172,7 +173,7 @@ theorem joinCols_splice (sh : Show) (c : Switch) (l1 l2 : List Col) (txt : Strin
 
 /-- **kevent_is_join.**  An event line is the concatenation, in the fixed order timestamp, name,
     qualifier, thread id, process, arguments, of the enabled columns (all 2^6 settings). -/
-theorem kevent_is_join (sh : Show) (qe : EnumDef) (codes : List (Nat × String)) (t : Tables) (e : Kevent) :
+theorem kevent_is_join (sh : Show) (qe : EnumDef) (codes : List (Nat × String)) (t : Format.Tables) (e : Kevent) :
     formatKevent sh qe codes t e = joinCols sh (keventCols qe codes t e) := by
   rcases sh with ⟨a, b, c, d, f, g⟩
   simp only [formatKevent, keventCols, joinCols_cons, joinCols_nil, enabled, get, colTimestamp, colName,
@@ -182,7 +183,7 @@ theorem kevent_is_join (sh : Show) (qe : EnumDef) (codes : List (Nat × String))
     simp [String.append_assoc]
 
 /-- **trace_is_join** (colour off): header columns timestamp, thread id, process, then the body. -/
-theorem trace_is_join (sh : Show) (t : Tables) (tr : TraceRec) :
+theorem trace_is_join (sh : Show) (t : Format.Tables) (tr : TraceRec) :
     formatTrace sh Colour.off t tr = joinCols sh (traceCols t tr) := by
   rcases sh with ⟨a, b, c, d, f, g⟩
   simp only [formatTrace, traceCols, headerCols, List.cons_append, List.nil_append, joinCols_cons, joinCols_nil,
@@ -190,7 +191,7 @@ theorem trace_is_join (sh : Show) (t : Tables) (tr : TraceRec) :
   cases a <;> cases d <;> cases f <;> simp [String.append_assoc]
 
 /-- The trace line for any colour setting: the same header, then the (possibly highlighted) body. -/
-theorem trace_is_header_body (sh : Show) (c : Colour) (t : Tables) (tr : TraceRec) :
+theorem trace_is_header_body (sh : Show) (c : Colour) (t : Format.Tables) (tr : TraceRec) :
     formatTrace sh c t tr
       = joinCols sh (headerCols t tr.timestamp tr.tid) ++ (if c.on then c.hlTrace tr.body else tr.body) := by
   rcases sh with ⟨a, b, c', d, f, g⟩
@@ -213,7 +214,7 @@ theorem frameLines_eq (i : Nat) (fs : List Frame) :
 
 /-- **callstack_is_join.**  A callstack text is the header (join of the enabled header columns)
     and one line per frame, `i` spaces of indent for frame `i`, joined by newlines. -/
-theorem callstack_is_join (sh : Show) (t : Tables) (cs : Callstack) :
+theorem callstack_is_join (sh : Show) (t : Format.Tables) (cs : Callstack) :
     formatCallstack sh t cs
       = "\n".intercalate (joinCols sh (headerCols t cs.timestamp cs.tid)
           :: cs.frames.mapIdx (fun i f => spaces i ++ frameText f)) := by
@@ -227,7 +228,7 @@ theorem callstack_is_join (sh : Show) (t : Tables) (cs : Callstack) :
 
 /-- **log_is_join** (colour off): timestamp text padded to 27, the process padded to 27 between
     two spaces when the record carries a process name, the message; independent of every switch. -/
-theorem log_is_join (sh : Show) (t : Tables) (timeString : String) (l : LogRec) :
+theorem log_is_join (sh : Show) (t : Format.Tables) (timeString : String) (l : LogRec) :
     formatLog Colour.off t timeString l = joinCols sh (logCols t timeString l) := by
   simp only [formatLog, logCols, Colour.off, colProcess]
   by_cases h : l.process = "" <;>
@@ -237,23 +238,23 @@ theorem log_is_join (sh : Show) (t : Tables) (timeString : String) (l : LogRec) 
 
 /-- **column_off** (event lines): for every one of the 2^6 settings and every column `c`, disabling
     `c` yields exactly the join of the other enabled columns. -/
-theorem column_off (sh : Show) (c : Switch) (qe : EnumDef) (codes : List (Nat × String)) (t : Tables)
+theorem column_off (sh : Show) (c : Switch) (qe : EnumDef) (codes : List (Nat × String)) (t : Format.Tables)
     (e : Kevent) :
     formatKevent (set sh c false) qe codes t e = joinCols sh (without c (keventCols qe codes t e)) := by
   rw [kevent_is_join, joinCols_off]
 
-theorem trace_column_off (sh : Show) (c : Switch) (t : Tables) (tr : TraceRec) :
+theorem trace_column_off (sh : Show) (c : Switch) (t : Format.Tables) (tr : TraceRec) :
     formatTrace (set sh c false) Colour.off t tr = joinCols sh (without c (traceCols t tr)) := by
   rw [trace_is_join, joinCols_off]
 
-theorem callstack_column_off (sh : Show) (c : Switch) (t : Tables) (cs : Callstack) :
+theorem callstack_column_off (sh : Show) (c : Switch) (t : Format.Tables) (cs : Callstack) :
     formatCallstack (set sh c false) t cs
       = "\n".intercalate (joinCols sh (without c (headerCols t cs.timestamp cs.tid))
           :: cs.frames.mapIdx (fun i f => spaces i ++ frameText f)) := by
   rw [callstack_is_join, joinCols_off]
 
 /-- Log lines have no switchable column: every switch setting gives the same line. -/
-theorem log_column_off (sh : Show) (c : Switch) (t : Tables) (timeString : String) (l : LogRec) :
+theorem log_column_off (sh : Show) (c : Switch) (t : Format.Tables) (timeString : String) (l : LogRec) :
     joinCols (set sh c false) (logCols t timeString l) = joinCols sh (logCols t timeString l) := by
   rw [← log_is_join, ← log_is_join]
 
@@ -261,7 +262,7 @@ theorem log_column_off (sh : Show) (c : Switch) (t : Tables) (timeString : Strin
     columns before/after `c`, the line is `pre ++ text_c ++ post` when `c` is on and `pre ++ post`
     when it is switched off — nothing else moves or changes. -/
 theorem kevent_column_removed (sh : Show) (c : Switch) (qe : EnumDef) (codes : List (Nat × String))
-    (t : Tables) (e : Kevent) :
+    (t : Format.Tables) (e : Kevent) :
     let cols := keventCols qe codes t e
     formatKevent sh qe codes t e
         = joinCols sh (before c cols) ++ (if get sh c then textOf c cols else "") ++ joinCols sh (after c cols) ∧
@@ -278,7 +279,7 @@ theorem kevent_column_removed (sh : Show) (c : Switch) (qe : EnumDef) (codes : L
 
 /-- The same for the header of trace and callstack lines (columns timestamp, thread id, process);
     the other three switches are not columns of these lines and change nothing. -/
-theorem header_column_removed (sh : Show) (c : Switch) (t : Tables) (timestamp tid : Nat) :
+theorem header_column_removed (sh : Show) (c : Switch) (t : Format.Tables) (timestamp tid : Nat) :
     let cols := headerCols t timestamp tid
     (c = .timestamp ∨ c = .tid ∨ c = .process →
       joinCols sh cols
@@ -293,7 +294,7 @@ theorem header_column_removed (sh : Show) (c : Switch) (t : Tables) (timestamp t
     · exact joinCols_splice sh .process [_, _] [] _ (by simp) (by simp)
   · rintro (h | h | h) b <;> subst h <;> exact joinCols_unrelated sh _ _ (by simp [cols, headerCols]) b
 
-theorem trace_column_removed (sh : Show) (c : Switch) (t : Tables) (tr : TraceRec)
+theorem trace_column_removed (sh : Show) (c : Switch) (t : Format.Tables) (tr : TraceRec)
     (hc : c = .timestamp ∨ c = .tid ∨ c = .process) :
     let cols := headerCols t tr.timestamp tr.tid
     formatTrace sh Colour.off t tr
@@ -308,7 +309,7 @@ theorem trace_column_removed (sh : Show) (c : Switch) (t : Tables) (tr : TraceRe
   exact ⟨by rw [h.1], by rw [h.2]⟩
 
 /-- The three switches that are not columns of a trace line do not affect it. -/
-theorem trace_ignores_other_switches (sh : Show) (c : Switch) (b : Bool) (col : Colour) (t : Tables)
+theorem trace_ignores_other_switches (sh : Show) (c : Switch) (b : Bool) (col : Colour) (t : Format.Tables)
     (tr : TraceRec) (hc : c = .name ∨ c = .funcQual ∨ c = .args) :
     formatTrace (set sh c b) col t tr = formatTrace sh col t tr := by
   rw [trace_is_header_body, trace_is_header_body, (header_column_removed sh c t tr.timestamp tr.tid).2 hc b]
@@ -319,7 +320,7 @@ theorem trace_ignores_other_switches (sh : Show) (c : Switch) (b : Bool) (col : 
     for that tid (name = the entry of the name table, empty when it has none), and `Error: tid N`
     when the tid is absent — and also when the table holds the pid −1, which the code uses as its
     "absent" marker. -/
-theorem process_column_lookup (t : Tables) (tid : Nat) :
+theorem process_column_lookup (t : Format.Tables) (tid : Nat) :
     (∀ pid, t.threadsPids.lookup tid = some pid → pid ≠ -1 →
         formatProcess t tid = (t.pidsNames.lookup pid).getD "" ++ "(" ++ toString pid ++ ")") ∧
     (t.threadsPids.lookup tid = none → formatProcess t tid = "Error: tid " ++ toString tid) ∧
@@ -331,7 +332,7 @@ theorem process_column_lookup (t : Tables) (tid : Nat) :
 
 /-- In every builder the process column is that text, padded (27 for event and log lines, 34 for
     trace and callstack headers), looked up for the record's own thread id. -/
-theorem process_column_of_builders (qe : EnumDef) (codes : List (Nat × String)) (t : Tables) (e : Kevent)
+theorem process_column_of_builders (qe : EnumDef) (codes : List (Nat × String)) (t : Format.Tables) (e : Kevent)
     (tr : TraceRec) (l : LogRec) (ts : String) :
     textOf .process (keventCols qe codes t e) = padRight 27 (formatProcess t e.tid) ∧
     textOf .process (traceCols t tr) = padRight 34 (formatProcess t tr.tid) ∧
@@ -348,7 +349,7 @@ theorem process_column_of_builders (qe : EnumDef) (codes : List (Nat × String))
     Partial: for the real pygments the assumption fails when the body contains `\r` or begins/ends
     with a newline (known finding K7); the unconditional statement
     `∀ body, strip (formatTrace sh on …) = strip (formatTrace sh off …)` is false for it. -/
-theorem trace_colour_transparent_partial (strip : String → String) (c : Colour) (sh : Show) (t : Tables)
+theorem trace_colour_transparent_partial (strip : String → String) (c : Colour) (sh : Show) (t : Format.Tables)
     (tr : TraceRec) (happ : ∀ a b, strip (a ++ b) = strip a ++ strip b)
     (hhl : strip (c.hlTrace tr.body) = strip tr.body) :
     strip (formatTrace sh c t tr) = strip (formatTrace sh Colour.off t tr) := by
@@ -357,7 +358,7 @@ theorem trace_colour_transparent_partial (strip : String → String) (c : Colour
 
 /-- The form with `strip (hl s) = s`: when moreover the header is plain text (erasing leaves it
     unchanged), erasing the coloured line gives exactly the colour-off line. -/
-theorem trace_colour_transparent_plain_partial (strip : String → String) (c : Colour) (sh : Show) (t : Tables)
+theorem trace_colour_transparent_plain_partial (strip : String → String) (c : Colour) (sh : Show) (t : Format.Tables)
     (tr : TraceRec) (happ : ∀ a b, strip (a ++ b) = strip a ++ strip b)
     (hplain : strip (joinCols sh (headerCols t tr.timestamp tr.tid)) = joinCols sh (headerCols t tr.timestamp tr.tid))
     (hon : c.on = true) (hhl : strip (c.hlTrace tr.body) = tr.body) :
@@ -368,7 +369,7 @@ theorem trace_colour_transparent_plain_partial (strip : String → String) (c : 
 /-- **log_colour_transparent.**  For any eraser that distributes over concatenation and erases
     `colored` (`strip (colored s c) = strip s`), the coloured log line and the plain one erase to the
     same text: the padding is computed on the plain process text, so colouring cannot move it. -/
-theorem log_colour_transparent (strip : String → String) (c : Colour) (t : Tables) (ts : String) (l : LogRec)
+theorem log_colour_transparent (strip : String → String) (c : Colour) (t : Format.Tables) (ts : String) (l : LogRec)
     (happ : ∀ a b, strip (a ++ b) = strip a ++ strip b)
     (hcol : ∀ s k, strip (c.colored s k) = strip s) :
     strip (formatLog c t ts l) = strip (formatLog Colour.off t ts l) := by
@@ -377,7 +378,7 @@ theorem log_colour_transparent (strip : String → String) (c : Colour) (t : Tab
 
 /-- With `strip (colored s c) = s` on plain pieces: erasing the coloured log line gives exactly the
     colour-off line, provided the eraser leaves the (plain) pieces and single spaces unchanged. -/
-theorem log_colour_transparent_plain (strip : String → String) (c : Colour) (t : Tables) (ts : String) (l : LogRec)
+theorem log_colour_transparent_plain (strip : String → String) (c : Colour) (t : Format.Tables) (ts : String) (l : LogRec)
     (happ : ∀ a b, strip (a ++ b) = strip a ++ strip b)
     (hcol : ∀ s k, strip (c.colored s k) = strip s)
     (hplain : ∀ s ∈ (logCols t ts l).map (·.2), strip s = s) :
@@ -404,7 +405,7 @@ theorem log_colour_transparent_plain (strip : String → String) (c : Colour) (t
 /-! ### non-vacuity -/
 
 private def qe := Gen.Enums.DgbFuncQual
-private def tabs : Tables := { threadsPids := [(7, 42), (9, -1)], pidsNames := [(42, "launchd")] }
+private def tabs : Format.Tables := { threadsPids := [(7, 42), (9, -1)], pidsNames := [(42, "launchd")] }
 private def ev : Kevent :=
   { timestamp := 1234, data := [39, 0, 255, 92, 10, 65], values := [], tid := 7, debugid := 0x040c0005,
     eventid := 0x040c0004, qual := 1 }
@@ -430,7 +431,7 @@ private def unmark (s : String) : String :=
   String.ofList (s.toList.filter (fun ch => ch ≠ '\uE000' ∧ ch ≠ '\uE001'))
 private theorem unmark_append (a b : String) : unmark (a ++ b) = unmark a ++ unmark b := by
   simp [unmark, String.toList_append, List.filter_append, String.ofList_append]
-example (t : Tables) (ts : String) (l : LogRec) :
+example (t : Format.Tables) (ts : String) (l : LogRec) :
     unmark (formatLog mark t ts l) = unmark (formatLog Colour.off t ts l) :=
   log_colour_transparent unmark mark t ts l unmark_append (by
     intro s k
@@ -601,5 +602,133 @@ example : (Trace.run exEnv (start exMap) exStream).2.1 = none ∧
     processSpec (declaredTables exEnv exMap (exStream.take 4)) 9 = "new(50)" ∧
     processSpec (declaredTables exEnv exMap exStream) 9 = "(60)" ∧
     processSpec (declaredTables exEnv exMap exStream) 8 = "Error: tid 8" := by decide +kernel
+
+
+/-! ### end to end: the lines of `formatted_traces` on the bytes of a dump (`Model/EndToEnd.lean`) -/
+
+/-- What `_format_trace` reads of a trace whose `str()` is `body`. -/
+def recOf (o : TraceOut) (body : String) : TraceRec :=
+  { timestamp := (firstOf o.events).timestamp, tid := (firstOf o.events).tid, body := body }
+
+/-- **e2e_line_shape.**  For every readable dump (any bytes `dumpOf` accepts), every filter configuration, environment
+    and column setting: line `i` of `formatted_traces` is `_format_trace` — colour off, on the lookup tables AS THEY ARE
+    WHEN TRACE `i` IS YIELDED — of (first record's timestamp, first record's thread id, `str(trace)`) for trace `i` of
+    `traces`, in order: `formatted_traces` adds nothing, reorders nothing and drops nothing but the traces from the first
+    rendering exception on.  The list ends either with the traces (then the exception, if any, is the trace layer's or
+    else the container's) or at the first trace whose text raises (then that exception is reported). -/
+theorem e2e_line_shape (env : Env) (obj : TracePipeline.Obj) (sh : Show) (file : Bytes) (d : TracePipeline.Dump)
+    (cerr : Option PyErr) (hd : EndToEnd.dumpOf file = .ok (d, cerr)) :
+    let tr := (TracePipeline.traces env obj d).1.traces
+    let out := EndToEnd.formattedTraces env obj sh file
+    (∀ (i : Nat) line, out.1[i]? = some line → ∃ o T body, tr[i]? = some (o, T) ∧ o.text = .ok body ∧
+        line = formatTrace sh Colour.off (EndToEnd.fmtTables T) (recOf o body)) ∧
+    ((out.1.length = tr.length ∧
+        out.2 = match (TracePipeline.traces env obj d).1.err with
+                | some e => some e
+                | none => cerr) ∨
+     (∃ o T e, tr[out.1.length]? = some (o, T) ∧ o.text = .error e ∧ out.2 = some e)) := by
+  intro tr out
+  have h1 : out.1 = (EndToEnd.formatAll sh tr).1 := EndToEnd.formattedTraces_lines env obj sh file d cerr hd
+  have h2 := EndToEnd.formattedTraces_err env obj sh file d cerr hd
+  obtain ⟨s1, s2⟩ := EndToEnd.formatAll_shape sh tr
+  refine ⟨?_, ?_⟩
+  · intro i line hl
+    rw [h1] at hl
+    obtain ⟨⟨o, T⟩, body, hp, ht, hline⟩ := s1 i line hl
+    exact ⟨o, T, body, hp, ht, hline⟩
+  · rw [h1]
+    rcases s2 with ⟨hlen, herr⟩ | ⟨⟨o, T⟩, e, hp, ht, herr⟩
+    · left
+      refine ⟨hlen, ?_⟩
+      show (EndToEnd.formattedTraces env obj sh file).2 = _
+      rw [h2]
+      show (match (EndToEnd.formatAll sh tr).2 with | some e => some e | none => _) = _
+      rw [herr]
+      cases (TracePipeline.traces env obj d).1.err <;> rfl
+    · right
+      refine ⟨o, T, e, hp, ht, ?_⟩
+      show (EndToEnd.formattedTraces env obj sh file).2 = _
+      rw [h2]
+      show (match (EndToEnd.formatAll sh tr).2 with | some e => some e | none => _) = _
+      rw [herr]
+
+/-- … and an unreadable dump (not version 2, or a header that does not parse) yields no line, only its exception. -/
+theorem e2e_unreadable (env : Env) (obj : TracePipeline.Obj) (sh : Show) (file : Bytes) (e : PyErr)
+    (h : EndToEnd.dumpOf file = .error e) : EndToEnd.formattedTraces env obj sh file = ([], some e) :=
+  EndToEnd.formattedTraces_unreadable env obj sh file e h
+
+/-- **e2e_process_column.**  Line `i` of `formatted_traces` is the concatenation of the enabled columns of its trace, and
+    its process column names the process the dump declares for the trace's thread AT THE TRIGGER EVENT: there is an
+    event `e` of the stream fed to the decoders (`fedEvents = pre ++ e :: post`) whose `feed` completed trace `i`, and
+    the column is `processSpec` — `name(pid)` / `Error: tid N` — of `declaredTables` (thread map superseded by the
+    new-thread, exec, terminate-pid and sampler records) of the prefix up to and including `e`, padded to 34.
+    The stream is the one the decoders are fed: with a thread / class / subclass filter the declaring records of other
+    threads or classes are not seen (known finding K3 for the process filter); without one it is the whole dump
+    (`e2e_process_column_unfiltered`). -/
+theorem e2e_process_column (env : Env) (hbn : BenignNested env) (obj : TracePipeline.Obj) (sh : Show) (file : Bytes)
+    (d : TracePipeline.Dump) (cerr : Option PyErr) (hd : EndToEnd.dumpOf file = .ok (d, cerr))
+    (i : Nat) (line : String) (hl : (EndToEnd.formattedTraces env obj sh file).1[i]? = some line) :
+    ∃ o T body pre e post,
+      (TracePipeline.traces env obj d).1.traces[i]? = some (o, T) ∧ o.text = .ok body ∧
+      TracePipeline.fedEvents obj.cfg d = pre ++ e :: post ∧
+      o ∈ (Trace.run env (start d.threadMap) (pre ++ [e])).1 ∧
+      line = joinCols sh (traceCols (EndToEnd.fmtTables T) (recOf o body)) ∧
+      textOf .process (traceCols (EndToEnd.fmtTables T) (recOf o body))
+        = padRight 34 (processSpec (declaredTables env d.threadMap (pre ++ [e])) o.tid) := by
+  obtain ⟨o, T, body, hp, ht, hline⟩ := (e2e_line_shape env obj sh file d cerr hd).1 i line hl
+  have hmem : (o, T) ∈ runAnnot env (start d.threadMap) (TracePipeline.fedEvents obj.cfg d) :=
+    EndToEnd.mem_traces env obj d (o, T) (List.mem_of_getElem? hp)
+  obtain ⟨pre, e, post, hm, ho, hproc⟩ := process_column_spec env hbn d.threadMap _ o T hmem
+  refine ⟨o, T, body, pre, e, post, hp, ht, hm, ho, ?_, ?_⟩
+  · rw [hline, trace_is_join]
+  · rw [(process_column_of_builders Gen.Enums.DgbFuncQual [] _ default (recOf o body) default "").2.1,
+      EndToEnd.fmtTables_eq]
+    exact congrArg (padRight 34) hproc
+
+/-- The same without thread / class / subclass filter (any process filter): the trigger event splits THE DUMP's events,
+    i.e. the column is what the whole dump declares up to and including that event. -/
+theorem e2e_process_column_unfiltered (env : Env) (hbn : BenignNested env) (obj : TracePipeline.Obj) (sh : Show)
+    (file : Bytes) (d : TracePipeline.Dump) (cerr : Option PyErr) (hd : EndToEnd.dumpOf file = .ok (d, cerr))
+    (h1 : obj.cfg.filterTid = none) (h2 : obj.cfg.filterClass = []) (h3 : obj.cfg.filterSubclass = [])
+    (i : Nat) (line : String) (hl : (EndToEnd.formattedTraces env obj sh file).1[i]? = some line) :
+    ∃ o T body pre e post,
+      (TracePipeline.traces env obj d).1.traces[i]? = some (o, T) ∧ o.text = .ok body ∧
+      d.events = pre ++ e :: post ∧
+      line = joinCols sh (traceCols (EndToEnd.fmtTables T) (recOf o body)) ∧
+      textOf .process (traceCols (EndToEnd.fmtTables T) (recOf o body))
+        = padRight 34 (processSpec (declaredTables env d.threadMap (pre ++ [e])) o.tid) := by
+  obtain ⟨o, T, body, pre, e, post, hp, ht, hm, _, hline, hcol⟩ :=
+    e2e_process_column env hbn obj sh file d cerr hd i line hl
+  rw [EndToEnd.fedEvents_nofilter obj.cfg d h1 h2 h3] at hm
+  exact ⟨o, T, body, pre, e, post, hp, ht, hm, hline, hcol⟩
+
+/-! #### non-vacuity: the 740-byte example dump of `Proofs/EndToEnd` -/
+
+theorem e2e_exEnv_benign : BenignNested EndToEnd.exEnv := by
+  intro eid n hr hc
+  simp only [vmfaultRange, decide_eq_true_eq] at hr
+  have h1 : (eid == 0x7000004) = false := by rw [beq_eq_false_iff_ne]; omega
+  have h2 : (eid == 0x7010004) = false := by rw [beq_eq_false_iff_ne]; omega
+  have h4 : (eid == 0x7010010) = false := by rw [beq_eq_false_iff_ne]; omega
+  simp [EndToEnd.exEnv, List.lookup, h1, h2, h4] at hc
+
+/-- six lines; thread 9 is shown as `(50)` once thread 7's new-thread record has declared it and as `new(50)` once the
+    name string has arrived; thread 8 is never declared; with the process column off and the thread column on. -/
+example :
+    EndToEnd.formattedTraces EndToEnd.exEnv {} {} (Spec.encodeV2 EndToEnd.exFile) =
+      (["1 launchd(42)                       Process exit name: x",
+        "2 launchd(42)                       New thread 9 of parent: 50",
+        "3 (50)                              Process exit name: y",
+        "4 launchd(42)                       New thread of parent: new",
+        "5 new(50)                           Process exit name: z",
+        "6 Error: tid 8                      Process exit name: {"], none) ∧
+    (EndToEnd.formattedTraces EndToEnd.exEnv {} { process := false, tid := true } (Spec.encodeV2 EndToEnd.exFile)).1.take 2 =
+      ["1           7 Process exit name: x", "2           7 New thread 9 of parent: 50"] ∧
+    (EndToEnd.dumpOf (Spec.encodeV2 EndToEnd.exFile)).toOption.map (fun p =>
+        (processSpec (declaredTables EndToEnd.exEnv p.1.threadMap (p.1.events.take 3)) 9,
+         processSpec (declaredTables EndToEnd.exEnv p.1.threadMap (p.1.events.take 5)) 9,
+         processSpec (declaredTables EndToEnd.exEnv p.1.threadMap (p.1.events.take 6)) 8))
+      = some ("(50)", "new(50)", "Error: tid 8") := by
+  decide +kernel
 
 end KdVerif.C14
